@@ -24,7 +24,7 @@ def gen():
     path = os.path.join(d, 'gen_ch_C19.py')
     names = []
     with open(path, 'w') as f:
-        f.write('from harness.ch_C19 import location, location_reach, lexer_error\n')
+        f.write('from harness.ch_C19 import location, location_reach, lexer_error, lexer_error_segments\n')
         for a in range(3):
             for b in range(3):
                 for c in range(3):
@@ -52,6 +52,15 @@ def r_lexerr(args):
     m = importlib.import_module('harness.ch_C19')
     ok = m.lexer_error(args['pre_len'], args['nl_at'], args['post_len'])
     return (not ok), {'args': args}, 'lexer-error-location', 'illegal-character message does not point at the character'
+
+
+def r_lexseg(args):
+    import importlib
+    m = importlib.import_module('harness.ch_C19')
+    a = (int(args['s0']), int(args['s1']), int(args['s2']), int(args['post_len']))
+    ok = m.lexer_error_seg_leaf(*a)
+    text = m.SEGMENTS[a[0]] + m.SEGMENTS[a[1]] + m.SEGMENTS[a[2]] + '#' + 'b' * a[3]
+    return (not ok), {'source': text}, 'lexer-error-location:segments', 'illegal-character message for %r does not show the line of the character with the caret under it' % text
 
 
 def handle_suggestions(run, name, res):
@@ -122,6 +131,7 @@ def run(tier):
     specs = [dict(fn=n, twin=None, replay=(lambda a, n=n: r_loc(dict(a, _fn=n)))) for n in names]
     specs.append(dict(fn='location_reach', twin=None, replay=lambda a: (False, {}, 'x', 'x'), name='location_reach'))
     specs.append(dict(fn='lexer_error', twin=None, replay=r_lexerr))
+    specs.append(dict(fn='lexer_error_segments', twin=None, replay=r_lexseg))
     res = ch_obligations(run, path, [s for s in specs if s['fn'] != 'location_reach'], cond_to=200 if tier == 'quick' else 600, path_to=60)
     # suggestions
     KS = (1, 2, 3) if tier == 'quick' else (1, 2, 3, 4)
